@@ -2338,24 +2338,35 @@ class DiskObjectStore(PackBasedObjectStore):
 
         fd, path = tempfile.mkstemp(dir=self.path, prefix="tmp_pack_")
         with os.fdopen(fd, "w+b") as f:
-            os.chmod(path, PACK_MODE)
-            indexer = PackIndexer(
-                f,
-                self.object_format.hash_func,
-                resolve_ext_ref=self.get_raw,
-            )
-            copier = PackStreamCopier(
-                self.object_format.hash_func,
-                read_all,
-                read_some,
-                f,
-                delta_iter=indexer,  # type: ignore[arg-type]
-            )
-            copier.verify(progress=progress)
-            entries, ext_refs = self._index_pack(
-                indexer, len(copier), progress=progress
-            )
-            return self._complete_pack(f, path, entries, ext_refs, progress=progress)
+            try:
+                os.chmod(path, PACK_MODE)
+                indexer = PackIndexer(
+                    f,
+                    self.object_format.hash_func,
+                    resolve_ext_ref=self.get_raw,
+                )
+                copier = PackStreamCopier(
+                    self.object_format.hash_func,
+                    read_all,
+                    read_some,
+                    f,
+                    delta_iter=indexer,  # type: ignore[arg-type]
+                )
+                copier.verify(progress=progress)
+                entries, ext_refs = self._index_pack(
+                    indexer, len(copier), progress=progress
+                )
+                return self._complete_pack(
+                    f, path, entries, ext_refs, progress=progress
+                )
+            except BaseException:
+                # The temporary file is ours until _complete_pack has moved
+                # it into place; do not leave it behind when the pack is
+                # rejected.
+                f.close()
+                with suppress(FileNotFoundError):
+                    os.remove(path)
+                raise
 
     def add_pack(
         self,
